@@ -17,6 +17,7 @@ import AITB.Model.Sampling
 import AITB.Model.SamplingModels
 
 namespace AITB.Sampling
+open AITB.Factored
 
 /-! ## `isProbability` overloads -/
 
@@ -103,5 +104,22 @@ def dirichletWithFallback (gs hs : List Rat) : List Rat :=
 /-- `sampleBetaDistribution` with the same fallback -/
 def betaWithFallback (x y hx hy : Rat) : Rat :=
   if x + y == 0 then betaFromGammas hx hy else betaFromGammas x y
+
+/-! ## bandit models: `Bandit::Model::sampleR`, `Factored::Bandit::Model::sampleR`, `FlattenedModel::sampleR` -/
+
+/-- one arm of a `Bandit::Model<std::uniform_real_distribution<double>>`: `lo + u·(hi − lo)` for the canonical draw `u` -/
+def armSample (arm : Rat × Rat) (u : Rat) : Rat := arm.1 + u * (arm.2 - arm.1)
+
+/-- `Bandit::Model::sampleR(a)`: `arms_[a](rand_)` -/
+def banditSampleR (arms : List (Rat × Rat)) (a : Nat) (u : Rat) : Rat := armSample (arms.getD a (0, 0)) u
+
+/-- `Factored::Bandit::Model::sampleR(a)`: `for i: rews_[i] = arms_[i].sampleR(toIndexPartial(groups_[i], A, a))`;
+    every group owns a `Bandit::Model` with its own engine: group `i` consumes `us[i]` -/
+def fbSampleR (A : List Nat) (groups : List (List Nat)) (arms : List (List (Rat × Rat))) (a : List Nat) (us : List Rat) : List Rat :=
+  List.zipWith (fun (ga : List Nat × List (Rat × Rat)) u => banditSampleR ga.2 (toIndexPartial ga.1 A a) u) (groups.zip arms) us
+
+/-- `FlattenedModel::sampleR(a)`: `toFactors(A, a, &helper_); return model_.sampleR(helper_).sum();` -/
+def flatSampleR (A : List Nat) (groups : List (List Nat)) (arms : List (List (Rat × Rat))) (id : Nat) (us : List Rat) : Rat :=
+  (fbSampleR A groups arms (toFactors A id) us).sum
 
 end AITB.Sampling
